@@ -19,6 +19,8 @@ def run(prog, ctx):
     total = 0
     decided = 0
     for fam in sorted(specfmt.FAMILIES):
+        if ctx.get("families") and fam not in ctx["families"]:
+            continue
         spec = specfmt.FAMILIES[fam]
         wf = C.pub_fn(prog, *spec["writer"])
         rf = C.pub_fn(prog, *spec["reader"])
